@@ -1,25 +1,43 @@
 // Driver for C12 (prepared statements behave like the inlined statement text).
 // A case is a history over one table: a parameterised statement is executed repeatedly with generated values,
 // interleaved with plain DML / ALTER statements, in three engines that start from the same data:
-//   api  : Engine.QueryWithBindings(query with ?, bindings built as the server does: querypb.BindVariable ->
-//          sqltypes.BindVariableToValue -> sqlparser.ExprFromValue), same session (prepared AST cached in it)
-//   sql  : PREPARE s FROM '...' once, then SET @pN = literal; EXECUTE s USING @p1, ...
-//   text : the statement text with the values written as literals
+//
+//	api  : Engine.QueryWithBindings(query with ?, bindings built as the server does: querypb.BindVariable ->
+//	       sqltypes.BindVariableToValue -> sqlparser.ExprFromValue), same session (prepared AST cached in it)
+//	sql  : PREPARE s FROM '...' once, then SET @pN = literal; EXECUTE s USING @p1, ...
+//	text : the statement text with the values written as literals
+//
 // Predicate (implementation alone): after every step the three engines agree on result rows / error kind and on the
 // table contents.  For the integer fragment the api result is also compared with the Coq model (Corr/C12.v).
 package main
 
 import (
 	"context"
+	dsql "database/sql"
 	"fmt"
 	"io"
+	"math/big"
+	"net"
+	"os"
+	"sort"
+	"strconv"
 	"strings"
+	"time"
+
+	"github.com/sirupsen/logrus"
 
 	"github.com/dolthub/vitess/go/sqltypes"
 	querypb "github.com/dolthub/vitess/go/vt/proto/query"
 	"github.com/dolthub/vitess/go/vt/sqlparser"
+	gomysql "github.com/go-sql-driver/mysql"
 
+	sqle "github.com/dolthub/go-mysql-server"
+	"github.com/dolthub/go-mysql-server/memory"
+	"github.com/dolthub/go-mysql-server/server"
 	"github.com/dolthub/go-mysql-server/sql"
+	"github.com/dolthub/go-mysql-server/sql/expression"
+	"github.com/dolthub/go-mysql-server/sql/planbuilder"
+	"github.com/dolthub/go-mysql-server/sql/types"
 
 	"verifharness/lib"
 	"verifharness/lib/eng"
@@ -28,60 +46,337 @@ import (
 // ---------- values ----------
 
 type param struct {
-	Type string `json:"type"` // int, uint, str, null, dec
-	Text string `json:"text"` // decimal digits / raw string / decimal text
+	Type string `json:"type"` // int, uint, str, null, dec, bytes, time, float
+	Text string `json:"text"` // decimal digits / raw string / decimal text / YYYY-MM-DD hh:mm:ss / float text
 }
 
+func quote(t string) string {
+	r := strings.NewReplacer(`\`, `\\`, `'`, `''`)
+	return "'" + r.Replace(t) + "'"
+}
+
+func floatText(t string) string {
+	f, _ := strconv.ParseFloat(t, 64)
+	return strconv.FormatFloat(f, 'e', -1, 64)
+}
+
+// literal: the text the inlining printer writes for the value
 func (p param) literal() string {
 	switch p.Type {
 	case "null":
 		return "NULL"
-	case "str":
-		r := strings.NewReplacer(`\`, `\\`, `'`, `''`)
-		return "'" + r.Replace(p.Text) + "'"
+	case "str", "bytes", "time":
+		return quote(p.Text)
+	case "float":
+		return floatText(p.Text)
 	default:
 		return p.Text
 	}
 }
 
-func (p param) bindExpr() (sqlparser.Expr, error) {
-	var bv *querypb.BindVariable
+// wireLiteral: the text for the value as go-sql-driver can send it (no DECIMAL parameter type: decimals travel as strings)
+func (p param) wireLiteral() string {
+	if p.Type == "dec" {
+		return quote(p.Text)
+	}
+	if p.Type == "time" { // go-sql-driver writes a time.Time at midnight as the date alone
+		return quote(strings.TrimSuffix(p.Text, " 00:00:00"))
+	}
+	return p.literal()
+}
+
+// wireArg: the Go argument handed to database/sql
+func (p param) wireArg() interface{} {
 	switch p.Type {
 	case "null":
-		bv = sqltypes.NullBindVariable
+		return nil
 	case "int":
-		bv = &querypb.BindVariable{Type: querypb.Type_INT64, Value: []byte(p.Text)}
+		v, _ := strconv.ParseInt(p.Text, 10, 64)
+		return v
 	case "uint":
-		bv = &querypb.BindVariable{Type: querypb.Type_UINT64, Value: []byte(p.Text)}
-	case "dec":
-		bv = &querypb.BindVariable{Type: querypb.Type_DECIMAL, Value: []byte(p.Text)}
+		v, _ := strconv.ParseUint(p.Text, 10, 64)
+		return v
+	case "bytes":
+		return []byte(p.Text)
+	case "float":
+		v, _ := strconv.ParseFloat(p.Text, 64)
+		return v
+	case "time":
+		t, err := time.Parse("2006-01-02 15:04:05", p.Text)
+		if err != nil {
+			return p.Text
+		}
+		return t
 	default:
-		bv = &querypb.BindVariable{Type: querypb.Type_VARCHAR, Value: []byte(p.Text)}
+		return p.Text
 	}
-	v, err := sqltypes.BindVariableToValue(bv)
+}
+
+func (p param) qtype() querypb.Type {
+	switch p.Type {
+	case "null":
+		return querypb.Type_NULL_TYPE
+	case "int":
+		return querypb.Type_INT64
+	case "uint":
+		return querypb.Type_UINT64
+	case "dec":
+		return querypb.Type_DECIMAL
+	case "bytes":
+		return querypb.Type_VARBINARY
+	case "time":
+		return querypb.Type_DATETIME
+	case "float":
+		return querypb.Type_FLOAT64
+	default:
+		return querypb.Type_VARCHAR
+	}
+}
+
+func (p param) bindVar(t querypb.Type) *querypb.BindVariable {
+	if p.Type == "null" {
+		return sqltypes.NullBindVariable
+	}
+	return &querypb.BindVariable{Type: t, Value: []byte(p.Text)}
+}
+
+func (p param) bindExpr() (sqlparser.Expr, error) {
+	v, err := sqltypes.BindVariableToValue(p.bindVar(p.qtype()))
 	if err != nil {
 		return nil, err
 	}
 	return sqlparser.ExprFromValue(v)
 }
 
-func (p param) coq() string {
-	if p.Type == "null" {
+func coqString(t string) string { return `"` + strings.ReplaceAll(t, `"`, `""`) + `"%string` }
+
+func coqZText(t string) string {
+	if strings.HasPrefix(t, "-") {
+		return "(" + t + ")%Z"
+	}
+	return t + "%Z"
+}
+
+func coqDigits(d string) string {
+	var sb strings.Builder
+	for _, c := range d {
+		fmt.Fprintf(&sb, "(D%c ", c)
+	}
+	sb.WriteString("Nil")
+	sb.WriteString(strings.Repeat(")", len(d)))
+	return sb.String()
+}
+
+// decimal text as (VDec unscaled scale)
+func coqDecVal(t string) string {
+	neg := strings.HasPrefix(t, "-")
+	t = strings.TrimPrefix(t, "-")
+	i, f, _ := strings.Cut(t, ".")
+	u := strings.TrimLeft(i+f, "0")
+	if u == "" {
+		u = "0"
+	} else if neg {
+		u = "-" + u
+	}
+	return fmt.Sprintf("(VDec %s %d%%N)", coqZText(u), len(f))
+}
+
+func (p param) modelled() bool {
+	switch p.Type {
+	case "time", "float":
+		return false
+	case "dec":
+		return strings.Contains(p.Text, ".")
+	}
+	return true
+}
+
+// pval: the argument as a term of Lang.C12Binding.pval
+func (p param) pval() string {
+	switch p.Type {
+	case "null":
+		return "PNull"
+	case "int":
+		return "(PInt " + coqZText(p.Text) + ")"
+	case "uint":
+		return "(PUint " + coqZText(p.Text) + ")"
+	case "dec":
+		t := p.Text
+		sign := "Pos"
+		if strings.HasPrefix(t, "-") {
+			sign, t = "Neg", t[1:]
+		}
+		i, f, _ := strings.Cut(t, ".")
+		return "(PDec (" + sign + " " + coqDigits(i) + ") " + coqDigits(f) + ")"
+	case "bytes":
+		return "(PBytes " + coqString(p.Text) + ")"
+	default:
+		return "(PStr " + coqString(p.Text) + ")"
+	}
+}
+
+// wire types of the argument's class, to observe the literal construction for every width
+var wtypes = map[string][]struct {
+	coq string
+	q   querypb.Type
+}{
+	"null":  {{"WNull", querypb.Type_NULL_TYPE}},
+	"int":   {{"WInt64", querypb.Type_INT64}, {"WInt8", querypb.Type_INT8}, {"WInt16", querypb.Type_INT16}, {"WInt24", querypb.Type_INT24}, {"WInt32", querypb.Type_INT32}},
+	"uint":  {{"WUint64", querypb.Type_UINT64}, {"WUint8", querypb.Type_UINT8}, {"WUint16", querypb.Type_UINT16}, {"WUint24", querypb.Type_UINT24}, {"WUint32", querypb.Type_UINT32}},
+	"dec":   {{"WDecimal", querypb.Type_DECIMAL}},
+	"str":   {{"WVarChar", querypb.Type_VARCHAR}, {"WChar", querypb.Type_CHAR}, {"WText", querypb.Type_TEXT}},
+	"bytes": {{"WVarBinary", querypb.Type_VARBINARY}, {"WBinary", querypb.Type_BINARY}, {"WBlob", querypb.Type_BLOB}},
+}
+
+var wnames = map[querypb.Type]string{querypb.Type_VARCHAR: "WVarChar", querypb.Type_CHAR: "WChar", querypb.Type_TEXT: "WText",
+	querypb.Type_VARBINARY: "WVarBinary", querypb.Type_BINARY: "WBinary", querypb.Type_BLOB: "WBlob"}
+
+// coqAny: an engine value as a term of the model's val ("" = a kind the model does not interpret)
+func coqAny(v interface{}) string {
+	switch x := v.(type) {
+	case nil:
 		return "VNull"
+	case bool:
+		if x {
+			return "(VInt 1%Z)"
+		}
+		return "(VInt 0%Z)"
+	case int8, int16, int32, int64, int, uint8, uint16, uint32, uint64, uint:
+		return "(VInt " + coqZText(fmt.Sprintf("%d", x)) + ")"
+	case string:
+		return "(VStr " + coqString(x) + ")"
+	case []byte:
+		return "(VStr " + coqString(string(x)) + ")"
+	case float32, float64, time.Time:
+		return ""
+	default:
+		t := fmt.Sprint(v)
+		if _, ok := new(big.Rat).SetString(t); ok && !strings.ContainsAny(t, "eE/") {
+			return coqDecVal(t)
+		}
+		return ""
 	}
-	if strings.HasPrefix(p.Text, "-") {
-		return "(VInt (" + p.Text + ")%Z)"
+}
+
+func coqLitType(l *expression.Literal, ctx *sql.Context) string {
+	t := l.Type(ctx)
+	switch t {
+	case types.Int8:
+		return "TInt8"
+	case types.Uint8:
+		return "TUint8"
+	case types.Int16:
+		return "TInt16"
+	case types.Uint16:
+		return "TUint16"
+	case types.Int32:
+		return "TInt32"
+	case types.Uint32:
+		return "TUint32"
+	case types.Int64:
+		return "TInt64"
+	case types.Uint64:
+		return "TUint64"
+	case types.Float64:
+		return "TFloat64"
+	case types.Null:
+		return "TNull"
+	case types.Time:
+		return "TTime"
+	case types.Year:
+		return "TYear"
 	}
-	return "(VInt " + p.Text + "%Z)"
+	if dt, ok := t.(sql.DecimalType); ok {
+		if dt.Equals(types.InternalDecimalType) {
+			return "TDecimalInternal"
+		}
+		return "TDecimalLit"
+	}
+	if st, ok := t.(sql.StringType); ok {
+		if st.Equals(types.CreateLongText(ctx.GetCollation())) {
+			return "TLongText"
+		}
+		if n, ok := wnames[st.Type()]; ok {
+			if st.Collation() == sql.Collation_binary {
+				return fmt.Sprintf("(TBinary %s %d%%N)", n, st.Length())
+			}
+			return fmt.Sprintf("(TString %s %d%%N)", n, st.Length())
+		}
+	}
+	if types.IsBit(t) {
+		return "TBit64"
+	}
+	if types.IsDatetimeType(t) || types.IsDateType(t) || types.IsTimestampType(t) {
+		return "(TDatetime WDatetime 0%N) (* " + t.String() + " *)"
+	}
+	return "TNull (* unexpected " + t.String() + " *)"
+}
+
+func coqObsLit(l *expression.Literal, ctx *sql.Context) string {
+	v := coqAny(l.Value())
+	if v == "" {
+		v = "None"
+	} else {
+		v = "(Some " + v + ")"
+	}
+	return "(Some (" + coqLitType(l, ctx) + ", " + v + "))"
+}
+
+// typedArg: (wire type, argument, literal observed on the live path, literal observed from engine.go bindingsToExprs)
+func (p param) typedArg(s *eng.S, pick int) string {
+	ws := wtypes[p.Type]
+	w := ws[pick%len(ws)]
+	ctx := sql.NewContext(context.Background(), sql.WithSession(s.Ctx.Session))
+	bv := p.bindVar(w.q)
+	oh := func() (out string) {
+		defer func() {
+			if r := recover(); r != nil {
+				out = "None"
+			}
+		}()
+		v, err := sqltypes.BindVariableToValue(bv)
+		if err != nil {
+			return "None"
+		}
+		e, err := sqlparser.ExprFromValue(v)
+		if err != nil {
+			return "None"
+		}
+		b := planbuilder.New(ctx, s.E.Engine.Analyzer.Catalog, nil)
+		switch x := e.(type) {
+		case *sqlparser.NullVal:
+			return "(Some (TNull, Some VNull))"
+		case *sqlparser.SQLVal:
+			if l, ok := b.ConvertVal(x).(*expression.Literal); ok {
+				return coqObsLit(l, ctx)
+			}
+		}
+		return "None"
+	}()
+	oe := func() (out string) {
+		defer func() {
+			if r := recover(); r != nil {
+				out = "None"
+			}
+		}()
+		m, err := sqle.VerifC12BindingsToExprs(ctx, map[string]*querypb.BindVariable{"v1": bv})
+		if err != nil {
+			return "None"
+		}
+		if l, ok := m["v1"].(*expression.Literal); ok {
+			return coqObsLit(l, ctx)
+		}
+		return "None"
+	}()
+	return "(" + w.coq + ", " + p.pval() + ", " + oh + ", " + oe + ")"
 }
 
 // ---------- case ----------
 
 type tmplJ struct {
-	Kind     string `json:"kind"`
-	SQL      string `json:"sql"`
-	CoqProj  string `json:"coq_proj,omitempty"`
-	CoqWhere string `json:"coq_where,omitempty"`
+	Kind    string `json:"kind"`
+	SQL     string `json:"sql"`
+	CoqStmt string `json:"coq_stmt,omitempty"` // the statement as a term of Lang.C12Prepared.stmt (modelled fragment)
 }
 
 type stepT struct {
@@ -95,26 +390,27 @@ type caseT struct {
 	Template string   `json:"template"` // SQL with ? holes
 	Setup    []string `json:"setup"`
 	Steps    []stepT  `json:"steps"`
-	CoqProj  string   `json:"coq_proj,omitempty"` // model terms for the integer fragment
-	CoqWhere string   `json:"coq_where,omitempty"`
-	More     []tmplJ  `json:"more,omitempty"` // further statements prepared and executed in the same session
+	CoqStmt  string   `json:"coq_stmt,omitempty"` // model term for the modelled fragment
+	More     []tmplJ  `json:"more,omitempty"`     // further statements prepared and executed in the same session
 }
 
 func (c *caseT) tmpl(k int) tmplJ {
 	if k == 0 {
-		return tmplJ{Kind: c.Kind, SQL: c.Template, CoqProj: c.CoqProj, CoqWhere: c.CoqWhere}
+		return tmplJ{Kind: c.Kind, SQL: c.Template, CoqStmt: c.CoqStmt}
 	}
 	return c.More[k-1]
 }
 
 const hole = "?"
 
-func inline(tmpl string, ps []param) string {
+func inline(tmpl string, ps []param) string { return inlineWith(tmpl, ps, param.literal) }
+
+func inlineWith(tmpl string, ps []param, lit func(param) string) string {
 	var sb strings.Builder
 	k := 0
 	for i := 0; i < len(tmpl); i++ {
 		if tmpl[i] == '?' && k < len(ps) {
-			sb.WriteString(ps[k].literal())
+			sb.WriteString(lit(ps[k]))
 			k++
 		} else {
 			sb.WriteByte(tmpl[i])
@@ -158,14 +454,24 @@ func anyParam(r *lib.RNG, want string) param {
 		if r.Chance(1, 6) {
 			return param{Type: "int", Text: fmt.Sprint(r.Range(0, 3))}
 		}
+		if r.Chance(1, 8) {
+			return param{Type: "bytes", Text: lib.Pick(r, strPool)}
+		}
 		return param{Type: "str", Text: lib.Pick(r, strPool)}
 	}
 }
 
-// integer-fragment expression: returns SQL (with ?), Coq term, and appends the hole kinds
+// modelled-fragment expressions: return SQL (with ?) and the Coq term; every hole records the kind of value it wants
 type gctx struct {
 	r     *lib.RNG
-	holes int
+	types []string
+	typed bool // also comparisons over strings / decimals / unsigned
+}
+
+func (g *gctx) hole(want string) (string, string) {
+	k := len(g.types)
+	g.types = append(g.types, want)
+	return hole, fmt.Sprintf("(Bind %d)", k)
 }
 
 func (g *gctx) operand() (string, string) {
@@ -181,9 +487,7 @@ func (g *gctx) operand() (string, string) {
 		}
 		return v.Text, "(Lit " + v.coq() + ")"
 	default:
-		k := g.holes
-		g.holes++
-		return hole, fmt.Sprintf("(Bind %d)", k)
+		return g.hole("small")
 	}
 }
 
@@ -199,6 +503,67 @@ func (g *gctx) term() (string, string) {
 	return s, c
 }
 
+var cmpOps = []struct{ sql, coq string }{{"=", "Eq"}, {"<", "Lt"}, {"<=", "Le"}, {"<=>", "NsEq"}}
+
+// typedPred: a comparison over the string column c or over numbers of mixed kinds (INT / DECIMAL column, integer,
+// unsigned and decimal holes)
+func (g *gctx) typedPred() (string, string) {
+	op := lib.Pick(g.r, cmpOps)
+	switch g.r.Intn(5) {
+	case 0, 1: // string column against a string hole or literal
+		var rs, rc string
+		if g.r.Chance(1, 4) {
+			t := lib.Pick(g.r, []string{"a", "X", "ab", ""})
+			rs, rc = quote(t), "(Lit (VStr "+coqString(t)+"))"
+		} else {
+			rs, rc = g.hole("mstr")
+		}
+		if g.r.Chance(1, 5) {
+			s2, c2 := g.hole("mstr")
+			return "(c IN (" + rs + ", " + s2 + "))", "(InList (Col 2) [" + atomOf(rc) + "; " + atomOf(c2) + "])"
+		}
+		if g.r.Bool() {
+			return "(c " + op.sql + " " + rs + ")", "(" + op.coq + " (Col 2) " + rc + ")"
+		}
+		return "(" + rs + " " + op.sql + " c)", "(" + op.coq + " " + rc + " (Col 2))"
+	case 2: // decimal column against a number
+		rs, rc := "1.50", "(Lit (VDec 150%Z 2%N))"
+		if !g.r.Chance(1, 4) {
+			rs, rc = g.hole("mnum")
+		}
+		if g.r.Bool() {
+			return "(d " + op.sql + " " + rs + ")", "(" + op.coq + " (Col 3) " + rc + ")"
+		}
+		return "(" + rs + " " + op.sql + " d)", "(" + op.coq + " " + rc + " (Col 3))"
+	case 3: // integer column against a number of any kind
+		rs, rc := g.hole("mnum")
+		col, cc := "b", "(Col 1)"
+		if g.r.Chance(1, 3) {
+			col, cc = "a", "(Col 0)"
+		}
+		return "(" + col + " " + op.sql + " " + rs + ")", "(" + op.coq + " " + cc + " " + rc + ")"
+	default: // decimal arithmetic
+		rs, rc := g.hole("mdec")
+		l, lc := lib.Pick(g.r, []string{"d", "b"}), ""
+		if l == "d" {
+			lc = "(Col 3)"
+		} else {
+			lc = "(Col 1)"
+		}
+		r2, rc2 := g.hole("mnum")
+		return "((" + l + " + " + rs + ") " + op.sql + " " + r2 + ")", "(" + op.coq + " (Add " + lc + " " + rc + ") " + rc2 + ")"
+	}
+}
+
+// atomOf: "(Bind k)" / "(Lit v)" as an IN-list atom
+func atomOf(c string) string {
+	c = strings.TrimSuffix(strings.TrimPrefix(c, "("), ")")
+	if strings.HasPrefix(c, "Bind ") {
+		return "ABind " + strings.TrimPrefix(c, "Bind ")
+	}
+	return "ALit " + strings.TrimPrefix(c, "Lit ")
+}
+
 func (g *gctx) pred(depth int) (string, string) {
 	if depth > 0 && g.r.Chance(1, 3) {
 		s1, c1 := g.pred(depth - 1)
@@ -211,6 +576,9 @@ func (g *gctx) pred(depth int) (string, string) {
 			return "(" + s1 + " AND " + s2 + ")", "(And " + c1 + " " + c2 + ")"
 		}
 		return "(" + s1 + " OR " + s2 + ")", "(Or " + c1 + " " + c2 + ")"
+	}
+	if g.typed && g.r.Chance(1, 2) {
+		return g.typedPred()
 	}
 	switch g.r.Intn(8) {
 	case 0:
@@ -227,9 +595,9 @@ func (g *gctx) pred(depth int) (string, string) {
 				ss = append(ss, v.literal())
 				cs = append(cs, "ALit "+v.coq())
 			default:
-				ss = append(ss, hole)
-				cs = append(cs, fmt.Sprintf("ABind %d", g.holes))
-				g.holes++
+				hs, hc := g.hole("small")
+				ss = append(ss, hs)
+				cs = append(cs, atomOf(hc))
 			}
 		}
 		return "(" + s + " IN (" + strings.Join(ss, ", ") + "))", "(InList " + c + " [" + strings.Join(cs, "; ") + "])"
@@ -261,31 +629,59 @@ type tmplT struct {
 	kind  string
 	sql   string
 	types []string // wanted type per hole
-	coqP  string
-	coqW  string
+	coqS  string   // Coq stmt term (modelled fragment only)
 }
 
 func genTemplate(r *lib.RNG) tmplT {
 	switch r.Intn(12) {
-	case 0, 1, 2, 3: // modelled integer fragment
+	case 0, 1, 2, 3: // modelled fragment; holes are numbered in text order
 		for {
-			g := &gctx{r: r}
+			g := &gctx{r: r, typed: r.Chance(2, 3)}
+			switch r.Intn(6) {
+			case 0: // UPDATE of b (or c) on the rows selected by the predicate
+				if g.typed && r.Chance(1, 3) {
+					vs, vc := g.hole("mstr")
+					w, cw := g.pred(2)
+					return tmplT{kind: "update-model", sql: "UPDATE t SET c = " + vs + " WHERE " + w, types: g.types, coqS: "(Update 2 " + vc + " " + cw + ")"}
+				}
+				vs, vc := g.term()
+				w, cw := g.pred(2)
+				if len(g.types) == 0 {
+					continue
+				}
+				return tmplT{kind: "update-model", sql: "UPDATE t SET b = " + vs + " WHERE " + w, types: g.types, coqS: "(Update 1 " + vc + " " + cw + ")"}
+			case 1:
+				w, cw := g.pred(2)
+				if len(g.types) == 0 {
+					continue
+				}
+				return tmplT{kind: "delete-model", sql: "DELETE FROM t WHERE " + w, types: g.types, coqS: "(Delete " + cw + ")"}
+			}
 			proj, cproj := []string{"a", "b"}, []string{"(Col 0)", "(Col 1)"}
+			if g.typed {
+				proj, cproj = append(proj, "c", "d"), append(cproj, "(Col 2)", "(Col 3)")
+			}
 			if r.Chance(1, 3) {
 				s, c := g.term()
 				proj = append(proj, s)
 				cproj = append(cproj, c)
 			}
+			if g.typed && r.Chance(1, 3) {
+				s, c := g.hole(lib.Pick(r, []string{"mstr", "mnum", "mdec"}))
+				proj = append(proj, s)
+				cproj = append(cproj, c)
+			}
+			if g.typed && r.Chance(1, 4) {
+				s, c := g.hole("mdec")
+				proj = append(proj, "d + "+s)
+				cproj = append(cproj, "(Add (Col 3) "+c+")")
+			}
 			w, cw := g.pred(2)
-			if g.holes == 0 {
+			if len(g.types) == 0 {
 				continue
 			}
-			ts := make([]string, g.holes)
-			for i := range ts {
-				ts[i] = "small"
-			}
-			return tmplT{kind: "select-int", sql: "SELECT " + strings.Join(proj, ", ") + " FROM t WHERE " + w, types: ts,
-				coqP: "[" + strings.Join(cproj, "; ") + "]", coqW: cw}
+			return tmplT{kind: "select-int", sql: "SELECT " + strings.Join(proj, ", ") + " FROM t WHERE " + w, types: g.types,
+				coqS: "(Select [" + strings.Join(cproj, "; ") + "] " + cw + ")"}
 		}
 	case 4:
 		return lib.Pick(r, []tmplT{
@@ -294,6 +690,9 @@ func genTemplate(r *lib.RNG) tmplT {
 			{kind: "select-str", sql: "SELECT a, CONCAT(c, ?) FROM t WHERE c <> ? OR c IS NULL", types: []string{"str", "str"}},
 			{kind: "select-str", sql: "SELECT a FROM t WHERE c IN (?, ?)", types: []string{"str", "str"}},
 			{kind: "select-str", sql: "SELECT a, COALESCE(c, ?) FROM t", types: []string{"str"}},
+			{kind: "select-time", sql: "SELECT a, ? FROM t WHERE ? > '2020-06-01'", types: []string{"time", "time"}},
+			{kind: "select-time", sql: "SELECT a FROM t WHERE DATE_ADD(?, INTERVAL b DAY) < '2021-01-01 00:00:00'", types: []string{"time"}},
+			{kind: "select-time", sql: "SELECT a, c FROM t WHERE c < ? OR ? IS NULL", types: []string{"time", "time"}},
 		})
 	case 5:
 		return lib.Pick(r, []tmplT{
@@ -302,6 +701,8 @@ func genTemplate(r *lib.RNG) tmplT {
 			{kind: "select-mixed", sql: "SELECT a FROM t WHERE b = ?", types: []string{"int"}},
 			{kind: "select-mixed", sql: "SELECT a, b * ? FROM t WHERE b < ?", types: []string{"int", "int"}},
 			{kind: "select-mixed", sql: "SELECT a FROM t WHERE a = ? OR b = ?", types: []string{"int", "int"}},
+			{kind: "select-float", sql: "SELECT a, b * ? FROM t WHERE d < ?", types: []string{"float", "float"}},
+			{kind: "select-float", sql: "SELECT a FROM t WHERE b = ? OR d = ?", types: []string{"float", "float"}},
 		})
 	case 6:
 		return lib.Pick(r, []tmplT{
@@ -312,8 +713,11 @@ func genTemplate(r *lib.RNG) tmplT {
 			{kind: "select-agg", sql: "SELECT COUNT(*), SUM(b + ?) FROM t WHERE b <> ?", types: []string{"small", "small"}},
 			{kind: "select-sub", sql: "SELECT a FROM t WHERE b IN (SELECT b FROM t WHERE a > ?)", types: []string{"small"}},
 		})
-	case 7, 8:
+	case 7:
 		return tmplT{kind: "insert", sql: "INSERT INTO t (a, b, c, d) VALUES (?, ?, ?, ?)", types: []string{"key", "int", "str", "dec"}}
+	case 8: // modelled: a fresh key, values that the column types store unchanged
+		return tmplT{kind: "insert-model", sql: "INSERT INTO t (a, b, c, d) VALUES (?, ?, ?, ?)", types: []string{"freshkey", "small", "mstr", "mdec2"},
+			coqS: "(Insert [(Bind 0); (Bind 1); (Bind 2); (Bind 3)])"}
 	case 9:
 		return lib.Pick(r, []tmplT{
 			{kind: "update", sql: "UPDATE t SET b = ?, c = ? WHERE a = ?", types: []string{"int", "str", "key"}},
@@ -337,6 +741,47 @@ func genParam(r *lib.RNG, want string) param {
 		return param{Type: "int", Text: fmt.Sprint(r.Range(0, 12))}
 	case "limit":
 		return param{Type: "int", Text: fmt.Sprint(r.Range(0, 4))}
+	case "time":
+		if r.Chance(1, 8) {
+			return param{Type: "null"}
+		}
+		return param{Type: "time", Text: lib.Pick(r, []string{"2020-01-02 03:04:05", "2021-12-31 23:59:59", "1999-01-01 00:00:01", "2020-06-01 00:00:00"})}
+	case "float":
+		if r.Chance(1, 8) {
+			return param{Type: "null"}
+		}
+		return param{Type: "float", Text: lib.Pick(r, []string{"0.5", "1.5", "-1.25", "2", "1e10", "3", "0"})}
+	case "mstr":
+		if r.Chance(1, 7) {
+			return param{Type: "null"}
+		}
+		if r.Chance(1, 6) {
+			return param{Type: "bytes", Text: lib.Pick(r, []string{"a", "X", "ab", ""})}
+		}
+		return param{Type: "str", Text: lib.Pick(r, strPool)}
+	case "mdec2":
+		if r.Chance(1, 7) {
+			return param{Type: "null"}
+		}
+		return param{Type: "dec", Text: lib.Pick(r, []string{"1.50", "2.00", "0.50", "-1.25", "10.10", "0.00", "99999999.99"})}
+	case "mdec":
+		if r.Chance(1, 8) {
+			return param{Type: "null"}
+		}
+		return param{Type: "dec", Text: lib.Pick(r, []string{"1.50", "2.00", "0.5", "-1.25", "10.10", "0.00", "3.0", "-0.5"})}
+	case "mnum":
+		switch r.Intn(8) {
+		case 0:
+			return param{Type: "null"}
+		case 1:
+			return param{Type: "uint", Text: lib.Pick(r, []string{"18446744073709551615", "9223372036854775808", "3", "0"})}
+		case 2, 3, 4:
+			return param{Type: "dec", Text: lib.Pick(r, []string{"1.50", "2.00", "0.5", "-1.25", "3.0", "0.00", "5.0"})}
+		case 5:
+			return param{Type: "int", Text: lib.Pick(r, []string{"9223372036854775807", "-9223372036854775808", "2147483648", "-129", "255", "256", "65535", "65536", "4294967295", "4294967296"})}
+		default:
+			return smallInt(r)
+		}
 	default:
 		return anyParam(r, want)
 	}
@@ -386,7 +831,7 @@ func manyHoles(r *lib.RNG) tmplT {
 			cp = append(cp, fmt.Sprintf("(Bind %d)", i))
 		}
 		return tmplT{kind: "select-int", sql: "SELECT a, " + strings.TrimSuffix(strings.Repeat("?, ", n-1), ", ") + " FROM t WHERE (a <= ?)",
-			types: append(distinct(n-1), "key"), coqP: "[" + strings.Join(cp, "; ") + "]", coqW: fmt.Sprintf("(Le (Col 0) (Bind %d))", n-1)}
+			types: append(distinct(n-1), "key"), coqS: "(Select [" + strings.Join(cp, "; ") + "] " + fmt.Sprintf("(Le (Col 0) (Bind %d))", n-1) + ")"}
 	case 2:
 		k := n / 2
 		var parts []string
@@ -433,13 +878,13 @@ func gen(r *lib.RNG) caseT {
 		}
 	}
 	t := ts[0]
-	c := caseT{Kind: t.kind, Template: t.sql, CoqProj: t.coqP, CoqWhere: t.coqW}
+	c := caseT{Kind: t.kind, Template: t.sql, CoqStmt: t.coqS}
 	modelled, hasInsert := false, false
 	for i, x := range ts {
 		if i > 0 {
-			c.More = append(c.More, tmplJ{Kind: x.kind, SQL: x.sql, CoqProj: x.coqP, CoqWhere: x.coqW})
+			c.More = append(c.More, tmplJ{Kind: x.kind, SQL: x.sql, CoqStmt: x.coqS})
 		}
-		modelled = modelled || x.kind == "select-int"
+		modelled = modelled || x.coqS != ""
 		hasInsert = hasInsert || strings.HasPrefix(x.kind, "insert")
 	}
 	c.Setup = []string{"CREATE TABLE t (a INT PRIMARY KEY, b INT, c VARCHAR(20), d DECIMAL(10,2))"}
@@ -496,6 +941,8 @@ func gen(r *lib.RNG) caseT {
 				ps[j] = param{Type: "int", Text: fmt.Sprint(base + 3*j + r.Intn(3))}
 			case "key1", "key2", "key3":
 				ps[j] = param{Type: "int", Text: fmt.Sprint(30 + 10*i + int(w[3]-'0'))}
+			case "freshkey":
+				ps[j] = param{Type: "int", Text: fmt.Sprint(200 + i)}
 			default:
 				ps[j] = genParam(r, w)
 			}
@@ -565,7 +1012,9 @@ func queryWithBindings(s *eng.S, q string, ps []param) (res eng.Result) {
 	return
 }
 
-func same(a, b obs) bool { return a.err == b.err && strings.Join(a.rows, "\n") == strings.Join(b.rows, "\n") }
+func same(a, b obs) bool {
+	return a.err == b.err && strings.Join(a.rows, "\n") == strings.Join(b.rows, "\n")
+}
 
 func paramTypes(ps []param) string {
 	m := map[string]bool{}
@@ -587,10 +1036,13 @@ func run(c *lib.Ctx, cs caseT) {
 			}
 		}
 	}
+	wc := wireBegin(cs)
+	defer wc.end()
 	preps := make([]eng.Result, 1+len(cs.More))
 	caseVariant := false
 	for k := range preps {
 		preps[k] = ss[1].Query(fmt.Sprintf("PREPARE s%d FROM '%s'", k, strings.ReplaceAll(cs.tmpl(k).SQL, "'", "''")))
+		wc.prepare(k, cs.tmpl(k).SQL)
 		for j := 0; j < k; j++ {
 			if cs.tmpl(j).SQL != cs.tmpl(k).SQL && strings.EqualFold(cs.tmpl(j).SQL, cs.tmpl(k).SQL) {
 				caseVariant = true
@@ -612,6 +1064,7 @@ func run(c *lib.Ctx, cs caseT) {
 			for i := range ss {
 				ss[i].Query(st.Other)
 			}
+			wc.other(st.Other)
 			if strings.HasPrefix(st.Other, "ALTER") || strings.HasPrefix(st.Other, "CREATE") {
 				afterDDL = true
 			}
@@ -626,9 +1079,10 @@ func run(c *lib.Ctx, cs caseT) {
 			c.Count("executions-with-10+-params")
 		}
 		// table before the step, for the model
-		before := ss[0].Query("SELECT a, b FROM t ORDER BY a")
+		before := ss[0].Query("SELECT a, b, c, d FROM t ORDER BY a")
 		// api
-		oa := toObs(queryWithBindings(ss[0], tm.SQL, st.Params))
+		ra := queryWithBindings(ss[0], tm.SQL, st.Params)
+		oa := toObs(ra)
 		// sql
 		var ob obs
 		if prep.Err != nil {
@@ -647,6 +1101,8 @@ func run(c *lib.Ctx, cs caseT) {
 		}
 		// text
 		oc := toObs(ss[2].Query(inline(tm.SQL, st.Params)))
+		// binary protocol: the prepared statement with typed arguments, and the inlined text on the twin
+		wb, wt, wtabB, wtabT := wc.exec(st.T, tm.SQL, st.Params)
 		// effects
 		var tabs [3]obs
 		for i := range ss {
@@ -656,29 +1112,48 @@ func run(c *lib.Ctx, cs caseT) {
 		if oc.err != "" {
 			c.Count("text-error:" + oc.err)
 		}
+		if wt.err != "" {
+			c.Count("wire-text-error:" + wt.err)
+		}
 		key := ""
 		if len(oc.rows) > 0 || strings.HasPrefix(tm.Kind, "insert") || strings.HasPrefix(tm.Kind, "update") || strings.HasPrefix(tm.Kind, "delete") {
 			key = fmt.Sprintf("%s|%v|%v", tm.SQL, st.Params, tabs[2].rows)
 		}
-		rec := map[string]interface{}{"case": cs, "step": si}
-		if tm.Kind == "select-int" && before.Err == nil {
-			// Coq case: bindings, proj, where, table (a,b), observed api rows
-			var bs, db []string
-			for _, p := range st.Params {
-				bs = append(bs, p.coq())
+		allModelled := tm.CoqStmt != "" && before.Err == nil
+		for _, p := range st.Params {
+			allModelled = allModelled && p.modelled()
+		}
+		if allModelled {
+			// Coq case: typed arguments with the observed literals, statement, table before, observed (rows, table after)
+			var args, db []string
+			for k, p := range st.Params {
+				args = append(args, p.typedArg(ss[0], si+k))
 			}
 			for _, r := range before.Rows {
-				db = append(db, "["+coqVal(r[0])+"; "+coqVal(r[1])+"]")
+				db = append(db, coqRow(r))
 			}
-			res := queryWithBindingsRows(ss[0], tm.SQL, st.Params)
-			term := fmt.Sprintf("(%s, %s, %s, %s, %s)", lib.CoqList(bs), tm.CoqProj, tm.CoqWhere, lib.CoqList(db), res)
+			observed := "None"
+			after := ss[0].Query("SELECT a, b, c, d FROM t ORDER BY a")
+			if ra.Err == nil && after.Err == nil {
+				var rows, tab []string
+				if strings.HasPrefix(tm.Kind, "select") {
+					for _, r := range ra.Rows {
+						rows = append(rows, coqRow(r))
+					}
+				}
+				for _, r := range after.Rows {
+					tab = append(tab, coqRow(r))
+				}
+				observed = "(Some (" + lib.CoqList(rows) + ", " + lib.CoqList(tab) + "))"
+			}
+			term := fmt.Sprintf("(%s, %s, %s, %s)", lib.CoqList(args), tm.CoqStmt, lib.CoqList(db), observed)
 			id = c.Case(term, cs, key)
+			c.Count("modelled:" + tm.Kind)
 			evals++
 		} else {
 			id = c.CaseNoModel(cs, key)
 			evals++
 		}
-		_ = rec
 		c.PredChecked()
 		if failed {
 			continue
@@ -697,77 +1172,249 @@ func run(c *lib.Ctx, cs caseT) {
 		if caseVariant {
 			first += "/texts-differing-only-in-case-in-session"
 		}
-		report := func(way string, o obs, tab obs) bool {
+		report := func(way string, o obs, tab obs, ref obs, refTab obs, refText string) bool {
 			switch {
-			case !same(o, oc):
+			case !same(o, ref):
 				kind := "rows-differ"
-				if o.err != oc.err {
-					kind = "error-" + o.err + "-vs-" + map[bool]string{true: "ok", false: oc.err}[oc.err == ""]
+				if o.err != ref.err {
+					kind = "error-" + o.err + "-vs-" + map[bool]string{true: "ok", false: ref.err}[ref.err == ""]
 				}
 				c.PredFail(id, fmt.Sprintf("%s/%s/%s/%s%s%s", way, tm.Kind, paramTypes(st.Params), kind, ddl, first),
 					fmt.Sprintf("%q with %v (step %d of %v over %q): %s returns %v, inlined text %q returns %v",
-						tm.SQL, st.Params, si, cs.Steps, cs.Setup, way, o, inline(tm.SQL, st.Params), oc), cs)
+						tm.SQL, st.Params, si, cs.Steps, cs.Setup, way, o, refText, ref), cs)
 				return true
-			case !same(tab, tabs[2]):
+			case !same(tab, refTab):
 				c.PredFail(id, fmt.Sprintf("%s/%s/%s/effect-differs%s%s", way, tm.Kind, paramTypes(st.Params), ddl, first),
 					fmt.Sprintf("%q with %v (step %d of %v over %q): table after %s is %v, after inlined text %q it is %v",
-						tm.SQL, st.Params, si, cs.Steps, cs.Setup, way, tab, inline(tm.SQL, st.Params), tabs[2]), cs)
+						tm.SQL, st.Params, si, cs.Steps, cs.Setup, way, tab, refText, refTab), cs)
 				return true
 			}
 			return false
 		}
-		if report("api", oa, tabs[0]) || report("sql-prepare", ob, tabs[1]) {
+		txt := inline(tm.SQL, st.Params)
+		if report("api", oa, tabs[0], oc, tabs[2], txt) || report("sql-prepare", ob, tabs[1], oc, tabs[2], txt) ||
+			(wc.on && report("wire-binary", wb, wtabB, wt, wtabT, inlineWith(tm.SQL, st.Params, param.wireLiteral))) {
 			failed = true
 		}
 	}
 }
 
-func coqVal(v interface{}) string {
-	if v == nil {
-		return "VNull"
+func coqRow(r sql.Row) string {
+	var vs []string
+	for _, v := range r {
+		t := coqAny(v)
+		if t == "" {
+			t = fmt.Sprintf("(VInt 777777%%Z) (* unexpected %T %v *)", v, v)
+		}
+		vs = append(vs, t)
 	}
-	s := fmt.Sprintf("%d", v)
-	if strings.HasPrefix(s, "-") {
-		return "(VInt (" + s + ")%Z)"
-	}
-	return "(VInt " + s + "%Z)"
+	return lib.CoqList(vs)
 }
 
-// observed rows of the api way as a Coq term: Some [[..];..] or None on error (re-run is safe: SELECT only)
-func queryWithBindingsRows(s *eng.S, q string, ps []param) string {
-	r := queryWithBindings(s, q, ps)
-	if r.Err != nil {
-		return "None"
+// ---------- the binary protocol ----------
+// Two servers over the memory backend on ephemeral 127.0.0.1 ports: on the first the statement is prepared once per
+// case (COM_STMT_PREPARE) and executed with typed Go arguments (COM_STMT_EXECUTE: int64, uint64, float64, string,
+// []byte, time.Time, nil); on the twin the text with the values inlined is prepared and executed without arguments,
+// so both results travel in the binary row format.  Table contents are read in-process from the two engines.
+
+type wireSrv struct {
+	e   *eng.E
+	db  *dsql.DB
+	srv *server.Server
+}
+
+var wireB, wireT *wireSrv
+var wireOff bool
+
+func startWire() *wireSrv {
+	logrus.SetLevel(logrus.PanicLevel)
+	e := eng.New("db")
+	ln, err := net.Listen("tcp", "127.0.0.1:0")
+	if err != nil {
+		panic(err)
 	}
-	var rows []string
-	for _, row := range r.Rows {
-		var vs []string
-		for _, v := range row {
-			switch x := v.(type) {
-			case nil:
-				vs = append(vs, "VNull")
-			case bool:
-				if x {
-					vs = append(vs, "(VInt 1%Z)")
-				} else {
-					vs = append(vs, "(VInt 0%Z)")
-				}
-			case int8, int16, int32, int64, int, uint8, uint16, uint32, uint64:
-				vs = append(vs, coqVal(x))
-			default:
-				vs = append(vs, fmt.Sprintf("(VInt 777777%%Z) (* unexpected %T %v *)", v, v))
+	cfg := server.Config{Protocol: "tcp", Address: ln.Addr().String(), Listener: ln}
+	srv, err := server.NewServer(cfg, e.Engine, sql.NewContext, memory.NewSessionBuilder(e.Pro), nil)
+	if err != nil {
+		panic(err)
+	}
+	go func() { _ = srv.Start() }()
+	mc := gomysql.NewConfig()
+	mc.User, mc.Net, mc.Addr, mc.DBName = "root", "tcp", ln.Addr().String(), "db"
+	mc.InterpolateParams = false
+	mc.Loc = time.UTC
+	db, err := dsql.Open("mysql", mc.FormatDSN())
+	if err != nil {
+		panic(err)
+	}
+	for i := 0; ; i++ {
+		if err = db.Ping(); err == nil {
+			break
+		}
+		if i > 200 {
+			panic("wire server does not answer: " + err.Error())
+		}
+		time.Sleep(20 * time.Millisecond)
+	}
+	return &wireSrv{e: e, db: db, srv: srv}
+}
+
+type wireCase struct {
+	on     bool
+	cb, ct *dsql.Conn
+	stmts  map[int]*dsql.Stmt
+	perr   map[int]error
+}
+
+func wireBegin(cs caseT) *wireCase {
+	w := &wireCase{stmts: map[int]*dsql.Stmt{}, perr: map[int]error{}}
+	if wireOff {
+		return w
+	}
+	if wireB == nil {
+		wireB, wireT = startWire(), startWire()
+	}
+	ctx := context.Background()
+	var err error
+	if w.cb, err = wireB.db.Conn(ctx); err != nil {
+		panic(err)
+	}
+	if w.ct, err = wireT.db.Conn(ctx); err != nil {
+		panic(err)
+	}
+	w.on = true
+	for _, c := range []*dsql.Conn{w.cb, w.ct} {
+		if _, err := c.ExecContext(ctx, "DROP TABLE IF EXISTS t"); err != nil {
+			panic(err)
+		}
+		for _, st := range cs.Setup {
+			if _, err := c.ExecContext(ctx, st); err != nil {
+				w.on = false
 			}
 		}
-		rows = append(rows, lib.CoqList(vs))
 	}
-	return "(Some " + lib.CoqList(rows) + ")"
+	return w
+}
+
+func (w *wireCase) end() {
+	for _, st := range w.stmts {
+		st.Close()
+	}
+	if w.cb != nil {
+		w.cb.Close()
+	}
+	if w.ct != nil {
+		w.ct.Close()
+	}
+}
+
+func (w *wireCase) prepare(k int, q string) {
+	if !w.on {
+		return
+	}
+	st, err := w.cb.PrepareContext(context.Background(), q)
+	if err != nil {
+		w.perr[k] = err
+		return
+	}
+	w.stmts[k] = st
+}
+
+func (w *wireCase) other(q string) {
+	if !w.on {
+		return
+	}
+	w.cb.ExecContext(context.Background(), q)
+	w.ct.ExecContext(context.Background(), q)
+}
+
+func wireErr(err error) string {
+	if e, ok := err.(*gomysql.MySQLError); ok {
+		return fmt.Sprintf("mysql-%d", e.Number)
+	}
+	return "driver: " + err.Error()
+}
+
+// wireRows: canonical bag of a binary-protocol result
+func wireRows(rows *dsql.Rows, err error) obs {
+	if err != nil {
+		return obs{err: wireErr(err)}
+	}
+	defer rows.Close()
+	cols, _ := rows.Columns()
+	var out []string
+	for rows.Next() {
+		vals := make([]interface{}, len(cols))
+		ptrs := make([]interface{}, len(cols))
+		for i := range vals {
+			ptrs[i] = &vals[i]
+		}
+		if err := rows.Scan(ptrs...); err != nil {
+			return obs{err: wireErr(err)}
+		}
+		var sb strings.Builder
+		for i, v := range vals {
+			if i > 0 {
+				sb.WriteString(" | ")
+			}
+			switch x := v.(type) {
+			case nil:
+				sb.WriteString("NULL")
+			case []byte:
+				fmt.Fprintf(&sb, "%q", string(x))
+			case string:
+				fmt.Fprintf(&sb, "%q", x)
+			case float32:
+				sb.WriteString(strconv.FormatFloat(float64(x), 'g', -1, 32))
+			case float64:
+				sb.WriteString(strconv.FormatFloat(x, 'g', -1, 64))
+			case time.Time:
+				sb.WriteString(x.UTC().Format("2006-01-02 15:04:05.999999"))
+			default:
+				fmt.Fprintf(&sb, "%v", x)
+			}
+		}
+		out = append(out, sb.String())
+	}
+	if err := rows.Err(); err != nil {
+		return obs{err: wireErr(err)}
+	}
+	sort.Strings(out)
+	return obs{rows: out}
+}
+
+// exec: (bound result, inlined-text result on the twin, table after on either engine)
+func (w *wireCase) exec(k int, q string, ps []param) (wb, wt, tabB, tabT obs) {
+	if !w.on {
+		return
+	}
+	ctx := context.Background()
+	if st, ok := w.stmts[k]; ok {
+		args := make([]interface{}, len(ps))
+		for i, p := range ps {
+			args[i] = p.wireArg()
+		}
+		wb = wireRows(st.QueryContext(ctx, args...))
+	} else {
+		wb = obs{err: wireErr(w.perr[k])}
+	}
+	st, err := w.ct.PrepareContext(ctx, inlineWith(q, ps, param.wireLiteral))
+	if err != nil {
+		wt = obs{err: wireErr(err)}
+	} else {
+		wt = wireRows(st.QueryContext(ctx))
+		st.Close()
+	}
+	tabB = toObs(wireB.e.Session().Query("SELECT * FROM t ORDER BY a"))
+	tabT = toObs(wireT.e.Session().Query("SELECT * FROM t ORDER BY a"))
+	return
 }
 
 var evals int
 
 func corpus() []caseT {
 	return []caseT{
-		{Kind: "select-int", Template: "SELECT a, b FROM t WHERE (b = ?)", CoqProj: "[(Col 0); (Col 1)]", CoqWhere: "(Eq (Col 1) (Bind 0))",
+		{Kind: "select-int", Template: "SELECT a, b FROM t WHERE (b = ?)", CoqStmt: "(Select [(Col 0); (Col 1)] (Eq (Col 1) (Bind 0)))",
 			Setup: []string{"CREATE TABLE t (a INT PRIMARY KEY, b INT, c VARCHAR(20), d DECIMAL(10,2))", "INSERT INTO t VALUES (1, 5, 'x', 1.50), (2, NULL, 'y', NULL), (3, 7, NULL, 2.00)"},
 			Steps: []stepT{{Params: []param{{Type: "int", Text: "5"}}}, {Other: "UPDATE t SET b = 7 WHERE a = 1"}, {Params: []param{{Type: "int", Text: "7"}}}, {Params: []param{{Type: "null"}}}}},
 	}
@@ -775,13 +1422,21 @@ func corpus() []caseT {
 
 func main() {
 	lib.Main("C12", func(c *lib.Ctx) {
-		c.Header = "From Coq Require Import List ZArith.\nImport ListNotations.\nFrom GMS Require Import Lang.C12Prepared Corr.C12.\nOpen Scope N_scope."
+		c.Header = "From Coq Require Import List ZArith NArith String Decimal.\nImport ListNotations.\nFrom GMS Require Import Lang.C12Prepared Lang.C12Binding Corr.C12.\nOpen Scope N_scope."
 		c.CaseType = "C12.case"
 		c.MismatchFn = "C12.mismatches"
 		c.SetRule("histories of 2-5 executions of one parameterised statement (integer-fragment SELECTs with random predicates over =, <, <=, <=>, +, -, AND, OR, NOT, IS NULL, IN, BETWEEN; " +
 			"string / decimal / mixed-type SELECTs, LIMIT ?, SELECT *, aggregates, subquery; INSERT / UPDATE / DELETE) with values over int64 boundaries, uint64, decimals, strings with quotes / " +
 			"backslashes / wildcards / multi-byte, NULL; 1/3 of the gaps hold a plain DML, CREATE INDEX or ALTER TABLE. Three engines (api bindings, SQL PREPARE/EXECUTE, inlined text) are compared after every " +
 			"execution on result bag, error kind and table contents; the api result of the integer fragment is compared with the Coq model. One evaluation = one execution step; non-trivial = non-empty result or DML.")
+		if q := os.Getenv("C12_SQL"); q != "" { // debugging aid: run statements separated by ';;' on a fresh engine
+			s := eng.New("db").Session()
+			for _, st := range strings.Split(q, ";;") {
+				r := s.Query(st)
+				fmt.Println(st, "=>", eng.Rows(r.Rows), r.Err)
+			}
+			return
+		}
 		if c.ReplayFile != "" {
 			var cs caseT
 			lib.LoadReplay(c.ReplayFile, &cs)
@@ -795,4 +1450,12 @@ func main() {
 			run(c, gen(c.R.Fork()))
 		}
 	})
+}
+
+// coq: a small integer / NULL as a term of the model's val
+func (p param) coq() string {
+	if p.Type == "null" {
+		return "VNull"
+	}
+	return "(VInt " + coqZText(p.Text) + ")"
 }
